@@ -19,7 +19,7 @@ RULE = ('All 1,331,463 non-sysex messages (every in-range attribute combination 
 ASSUMPTIONS = ['reference codec lib/refmidi.py written from the MIDI 1.0 tables is correct',
                'times are compared with == and type identity; NaN/inf times are not generated']
 
-CONTAINERS = ('list', 'tuple', 'bytes', 'bytearray', 'bin', 'hex', 'hexsep')
+CONTAINERS = ('list', 'tuple', 'bytes', 'bytearray', 'bin', 'hex', 'hexsep', 'hexsep2', 'hexsep3', 'hexnosep')
 
 
 def _conv(kind, b):
@@ -89,6 +89,12 @@ def check_msg(d, conts, t2, data_as='list'):
                 r = mido.Message.from_hex(m.hex(), time=t2)
             elif c == 'hexsep':
                 r = mido.Message.from_hex(m.hex(sep=':'), time=t2, sep=':')
+            elif c == 'hexsep2':
+                r = mido.Message.from_hex(m.hex(sep=', '), time=t2, sep=', ')
+            elif c == 'hexsep3':
+                r = mido.Message.from_hex(m.hex(sep='-x-'), time=t2, sep='-x-')
+            elif c == 'hexnosep':
+                r = mido.Message.from_hex(m.hex(sep=''), time=t2)
             else:
                 r = mido.Message.from_bytes(_conv(c, got), time=t2)
         except Exception as exc:  # noqa: BLE001
